@@ -184,6 +184,19 @@ def run_property(prop, tier, seed):
     trivial = discharge(obls, timeout_s=timeout)
     findings = known_findings()
     failed, undecided, errors, known = [], [], [], []
+    # path covers: a refuted one is a dead path (carried along because pruning ignores quantified
+    # assumptions); its obligations are vacuous and it is not counted.  A root function none of whose
+    # paths is feasible is a vacuous proof: checker error.
+    dead_paths = [o for o in obls if o.kind == 'cover-path' and status(o) == 'failed']
+    by_root = {}
+    for o in obls:
+        if o.kind == 'cover-path':
+            by_root.setdefault(o.function, []).append(o)
+    vacuous_roots = [r for r, lst in by_root.items() if all(status(o) == 'failed' for o in lst)]
+    for r in vacuous_roots:
+        print(f'CHECKER-ERROR vacuous: no feasible path through {r}')
+    obls = [o for o in obls if o not in dead_paths]
+    eng.obligations = obls
     for o in obls:
         s = status(o)
         if s == 'failed':
@@ -258,7 +271,7 @@ def run_property(prop, tier, seed):
             'racy_reads': sorted(f'{a}:{b}@{c}' for a, b, c in eng.racy_reads),
             'vacuity': {'covers': sum(1 for o in obls if o.kind == 'cover'),
                         'must_fail_twins': sum(1 for o in obls if o.kind == 'twin'),
-                        'paths': eng.paths, 'infeasible_branches_pruned': eng.pruned},
+                        'paths': eng.paths, 'infeasible_branches_pruned': eng.pruned, 'dead_paths_not_counted': len(dead_paths)},
             'failed': [o.id for o, _ in failed], 'undecided': [o.id for o in undecided],
             'known_findings_hit': sorted(seen_kf),
             'bounded_standins': bounded.get('report', {}),
@@ -276,7 +289,7 @@ def run_property(prop, tier, seed):
           f'{len(undecided)} undecided, {len(out_of_reach)} out of reach, {ev["wall_s"]}s')
     if violations or bounded.get('violations'):
         return 1, ev
-    if errors or n == 0:
+    if errors or n == 0 or vacuous_roots:
         return 3, ev
     if undecided or out_of_reach:
         return 2, ev
